@@ -1,2 +1,133 @@
+//! serde ops (C16): serialise / deserialise every serialisable type in bincode and JSON.
 use crate::*;
-pub fn register(_m: &mut HashMap<&'static str, OpFn>) {}
+use bincode::Options;
+use curve25519_dalek::montgomery::MontgomeryPoint;
+use ed25519_dalek::{Signature, SigningKey, VerifyingKey};
+use serde::{de::DeserializeOwned, Serialize};
+use x25519_dalek::{PublicKey, StaticSecret};
+
+fn ser_both<T: Serialize>(v: &T) -> Out {
+    let b = bincode::serialize(v).expect("bincode serialize");
+    let j = serde_json::to_vec(v).expect("json serialize");
+    vec![hex(&b), hex(&j)]
+}
+
+fn de<T: DeserializeOwned>(fmt: &str, payload: &[u8]) -> Option<T> {
+    match fmt {
+        "bin" => bincode::deserialize::<T>(payload).ok(),
+        "binstrict" => bincode::DefaultOptions::new()
+            .with_fixint_encoding()
+            .reject_trailing_bytes()
+            .deserialize::<T>(payload)
+            .ok(),
+        "json" => serde_json::from_slice::<T>(payload).ok(),
+        _ => panic!("ARG: fmt"),
+    }
+}
+
+/// native decode of `bytes` into type `ty`; None if the native decoder rejects
+macro_rules! with_type {
+    ($ty:expr, $bytes:expr, $f:ident, $($extra:expr),*) => {{
+        let b: &[u8] = $bytes;
+        match $ty {
+            "scalar" => {
+                let a: [u8; 32] = b.try_into().unwrap_or_else(|_| panic!("ARG: len"));
+                Option::<Scalar>::from(Scalar::from_canonical_bytes(a)).map(|v| $f(&v, |x: &Scalar| x.to_bytes().to_vec(), $($extra),*))
+            }
+            "edwards" => {
+                let a: [u8; 32] = b.try_into().unwrap_or_else(|_| panic!("ARG: len"));
+                CompressedEdwardsY(a).decompress().map(|v| $f(&v, |x: &EdwardsPoint| x.compress().to_bytes().to_vec(), $($extra),*))
+            }
+            "cedwards" => {
+                let a: [u8; 32] = b.try_into().unwrap_or_else(|_| panic!("ARG: len"));
+                Some($f(&CompressedEdwardsY(a), |x: &CompressedEdwardsY| x.to_bytes().to_vec(), $($extra),*))
+            }
+            "ristretto" => {
+                let a: [u8; 32] = b.try_into().unwrap_or_else(|_| panic!("ARG: len"));
+                CompressedRistretto(a).decompress().map(|v| $f(&v, |x: &RistrettoPoint| x.compress().to_bytes().to_vec(), $($extra),*))
+            }
+            "cristretto" => {
+                let a: [u8; 32] = b.try_into().unwrap_or_else(|_| panic!("ARG: len"));
+                Some($f(&CompressedRistretto(a), |x: &CompressedRistretto| x.to_bytes().to_vec(), $($extra),*))
+            }
+            "montgomery" => {
+                let a: [u8; 32] = b.try_into().unwrap_or_else(|_| panic!("ARG: len"));
+                Some($f(&MontgomeryPoint(a), |x: &MontgomeryPoint| x.to_bytes().to_vec(), $($extra),*))
+            }
+            "signingkey" => {
+                let a: [u8; 32] = b.try_into().unwrap_or_else(|_| panic!("ARG: len"));
+                Some($f(&SigningKey::from_bytes(&a), |x: &SigningKey| x.to_bytes().to_vec(), $($extra),*))
+            }
+            "verifyingkey" => {
+                let a: [u8; 32] = b.try_into().unwrap_or_else(|_| panic!("ARG: len"));
+                VerifyingKey::from_bytes(&a).ok().map(|v| $f(&v, |x: &VerifyingKey| x.to_bytes().to_vec(), $($extra),*))
+            }
+            "signature" => {
+                let a: [u8; 64] = b.try_into().unwrap_or_else(|_| panic!("ARG: len"));
+                Some($f(&Signature::from_bytes(&a), |x: &Signature| x.to_bytes().to_vec(), $($extra),*))
+            }
+            "xpublic" => {
+                let a: [u8; 32] = b.try_into().unwrap_or_else(|_| panic!("ARG: len"));
+                Some($f(&PublicKey::from(a), |x: &PublicKey| x.to_bytes().to_vec(), $($extra),*))
+            }
+            "xstatic" => {
+                let a: [u8; 32] = b.try_into().unwrap_or_else(|_| panic!("ARG: len"));
+                Some($f(&StaticSecret::from(a), |x: &StaticSecret| x.to_bytes().to_vec(), $($extra),*))
+            }
+            _ => panic!("ARG: type"),
+        }
+    }};
+}
+
+fn roundtrip<T: Serialize + DeserializeOwned>(v: &T, enc: impl Fn(&T) -> Vec<u8>) -> Out {
+    let mut o = vec![hex(&enc(v))];
+    o.extend(ser_both(v));
+    let b = bincode::serialize(v).expect("ser");
+    let j = serde_json::to_vec(v).expect("ser");
+    for (fmt, payload) in [("bin", &b), ("binstrict", &b), ("json", &j)] {
+        match de::<T>(fmt, payload) {
+            Some(w) => o.push(hex(&enc(&w))),
+            None => o.push("err".into()),
+        }
+    }
+    o
+}
+
+fn de_only<T: DeserializeOwned>(fmt: &str, payload: &[u8], enc: impl Fn(&T) -> Vec<u8>) -> Out {
+    match de::<T>(fmt, payload) {
+        Some(w) => vec!["ok".into(), hex(&enc(&w))],
+        None => vec!["err".into()],
+    }
+}
+
+pub fn register(m: &mut HashMap<&'static str, OpFn>) {
+    // sd.rt <type> <native bytes> -> native|none, then canonical bytes, bincode, json, 3x roundtrip results
+    m.insert("sd.rt", |a| {
+        let ty = a.tok(0);
+        let b = a.bytes(1);
+        match with_type!(ty, &b, roundtrip,) {
+            Some(o) => o,
+            None => vec!["native-reject".into()],
+        }
+    });
+    // sd.de <type> <fmt> <payload>
+    m.insert("sd.de", |a| {
+        let ty = a.tok(0);
+        let fmt = a.tok(1);
+        let p = a.bytes(2);
+        match ty {
+            "scalar" => de_only::<Scalar>(fmt, &p, |x| x.to_bytes().to_vec()),
+            "edwards" => de_only::<EdwardsPoint>(fmt, &p, |x| x.compress().to_bytes().to_vec()),
+            "cedwards" => de_only::<CompressedEdwardsY>(fmt, &p, |x| x.to_bytes().to_vec()),
+            "ristretto" => de_only::<RistrettoPoint>(fmt, &p, |x| x.compress().to_bytes().to_vec()),
+            "cristretto" => de_only::<CompressedRistretto>(fmt, &p, |x| x.to_bytes().to_vec()),
+            "montgomery" => de_only::<MontgomeryPoint>(fmt, &p, |x| x.to_bytes().to_vec()),
+            "signingkey" => de_only::<SigningKey>(fmt, &p, |x| x.to_bytes().to_vec()),
+            "verifyingkey" => de_only::<VerifyingKey>(fmt, &p, |x| x.to_bytes().to_vec()),
+            "signature" => de_only::<Signature>(fmt, &p, |x| x.to_bytes().to_vec()),
+            "xpublic" => de_only::<PublicKey>(fmt, &p, |x| x.to_bytes().to_vec()),
+            "xstatic" => de_only::<StaticSecret>(fmt, &p, |x| x.to_bytes().to_vec()),
+            _ => panic!("ARG: type"),
+        }
+    });
+}
